@@ -301,8 +301,16 @@ func (s *Session) run(ctx context.Context, calldepth int, funcv *bigslice.FuncVa
 			return err
 		}
 		// Freeze the environment to ensure that compilations are consistent
-		// (e.g. across workers).
+		// (e.g. across workers). The tasks carry copies of the invocation made
+		// during compilation, and those copies are what is sent to workers.
 		inv.Env.Freeze()
+		_ = iterTasks(tasks, func(task *Task) error {
+			// (Tasks of reused results are frozen already, and shared.)
+			if task.Invocation.Env.IsWritable() {
+				task.Invocation.Env.Freeze()
+			}
+			return nil
+		})
 		// TODO(marius): give a way to provide names for these groups
 		if s.status != nil {
 			// Make the slice status group come before the more granular task
